@@ -126,7 +126,35 @@ func dischargeOne(i int, o *Obligation, opts SolveOpts) *Outcome {
 	type ans struct {
 		solver, answer, out string
 	}
-	ch := make(chan ans, len(use))
+	ch := make(chan ans, len(use)+1)
+	nproc := len(use)
+	// sliced variant: the same goal without the quantified path facts (sound for proving: fewer
+	// hypotheses). Only an "unsat" answer of this variant is used.
+	if !o.MustFail {
+		var slim []Term
+		dropped := 0
+		for _, a := range o.Assumptions {
+			if strings.Contains(a.S, "(forall ") || strings.Contains(a.S, "(exists ") {
+				dropped++
+				continue
+			}
+			slim = append(slim, a)
+		}
+		if dropped > 0 {
+			file2 := strings.TrimSuffix(file, ".smt2") + "_slim.smt2"
+			if err := os.WriteFile(file2, []byte(header+o.Ctx.Render(slim, o.Goal, false, nil)), 0o644); err == nil {
+				nproc++
+				go func() {
+					a, out := runSolver(ctx, solvers[0], file2, timeout)
+					os.Remove(file2)
+					if a != "unsat" {
+						a = "unknown"
+					}
+					ch <- ans{"z3-new(sliced)", a, out}
+				}()
+			}
+		}
+	}
 	for _, s := range use {
 		go func(s solverSpec) {
 			a, out := runSolver(ctx, s, file, timeout)
@@ -136,7 +164,7 @@ func dischargeOne(i int, o *Obligation, opts SolveOpts) *Outcome {
 	unsatCount := 0
 	var satAns *ans
 	done := 0
-	for done < len(use) {
+	for done < nproc {
 		a := <-ch
 		done++
 		res.Per[a.solver] = a.answer
